@@ -215,7 +215,7 @@ class Side:
 
     # -- uploads ------------------------------------------------------------------------------
     def upload_attempt(self, src: bytes, filesize: int, offset_bytes: bytes | None, kbps=0, cut=None,
-                       peer_closes=True, close_kind='eof'):
+                       peer_closes=True, close_kind='eof', osplit=None):
         """One upload attempt.  offset_bytes: what the peer sends as offset (8 bytes; fewer or None:
         the connection ends before the offset is complete).  cut=k: the first send that starts when
         >= k file bytes were written fails.  Returns the observation dict."""
@@ -249,7 +249,14 @@ class Side:
         task = loop.create_task(self.mgr._initialize_upload(tr))
         loop.run_ready(60)
         if offset_bytes:
-            fep.feed(offset_bytes)
+            if osplit:
+                # the offset arrives in two TCP segments
+                fep.feed(offset_bytes[:osplit])
+                loop.run_ready(20)
+                loop.run_for(1)
+                fep.feed(offset_bytes[osplit:])
+            else:
+                fep.feed(offset_bytes)
         if offset_bytes is None or len(offset_bytes) < 8:
             fep.feed_eof()
         loop.run_for(170)
@@ -558,7 +565,9 @@ class Pair:
         return dict(dl=dl.state.VALUE.name, dl_reason=dl.fail_reason, dl_rq=dl.remotely_queued,
                     up=up.state.VALUE.name if up else None, up_reason=up.fail_reason if up else None,
                     file=data, attempts=len(self.file_links), breaks=self.breaks,
-                    offsets=[ln.offset for ln in self.file_links])
+                    offsets=[ln.offset for ln in self.file_links],
+                    broken=[bool(ln.broken) for ln in self.file_links],
+                    kinds=[(ln.fault[0] if ln.fault else None) for ln in self.file_links])
 
     def close(self):
         try:
